@@ -12,6 +12,8 @@ Next == UNCHANGED i
 Bad == SelectSeq([k \in 1..Len(Rows) |->
                     [row |-> k, failed |-> SetToSeq(Failed(Case(k), Rows[k].o)),
                      extra |-> SetToSeq(Extra(Case(k), Rows[k].o)), missing |-> SetToSeq(Missing(Case(k), Rows[k].o)),
+                     extraRoles |-> SetToSeq({Role(Case(k), p) : p \in Extra(Case(k), Rows[k].o)}),
+                     missingRoles |-> SetToSeq({Role(Case(k), p) : p \in Missing(Case(k), Rows[k].o)}),
                      drift |-> ~SetupOK(Case(k), Rows[k].o)]],
                  LAMBDA r : r.failed # <<>> \/ r.drift)
 ASSUME JsonSerialize(IOEnv.VF_OUT, [n |-> Len(Rows), bad |-> Bad])
